@@ -664,9 +664,6 @@ def rx_classify(trace, matched, status, meta):
     k = matched if status != "ok" else matched + 1
     pre = trace[:k]
     pattern = "other"
-    _nb = (meta or {}).get("buffer_count")
-    if _nb and _nb & (_nb - 1):
-        return {"clause": status, "pattern": "buffer_count_not_power_of_two", "group": "config"}
     if status.startswith("env_"):
         raise tlc.TLCError("stimulus left the Env assumptions (%s) at step %d: %s" % (status, k, pre[-3:]))
     # last link-down before the failing record, and USB-reset strobes after it
@@ -688,9 +685,6 @@ def rx_classify(trace, matched, status, meta):
         hd = [r for r in pre if r["e"] == "hdr"]
         if any(b.get("t0") is not None and b["t0"] == a["t"] + 1 for a, b in zip(hd, hd[1:])):
             pattern = "back_to_back_header"
-    nb = (meta or {}).get("buffer_count")
-    if nb and nb & (nb - 1):
-        pattern = "buffer_count_not_power_of_two"
     group = "other"
     if status in ("quiet_adv_lgood_missing", "adv_lgood_first", "lgood_seq", "lgood_not_owed", "lcrd_not_owed",
                   "lcrd_letter", "quiet_lcrd_missing", "stale_command_after_up", "quiet_queue_valid",
@@ -702,15 +696,12 @@ def rx_classify(trace, matched, status, meta):
 # =====================================================================================================
 # Configuration coverage
 # =====================================================================================================
-# HeaderPacketReceiver(buffer_count, downstream_facing): powers of two 1, 2, 8 besides the default 4 (USB3 itself
-# only knows 4 buffers / letters A..D); keep-alive LUP (default) / LDN (downstream_facing).  A non-power-of-two
-# buffer_count is covered as well (pointer / letter wrap).
-# (quick tier: one of the first three, rotated by seed -- always downstream_facing and a non-default power of two --
-#  plus the non-power-of-two one; thorough tier: all)
-RX_ALT_CONFIGS = [(2, True), (8, True), (1, True), (3, False), (2, False), (8, False), (1, False)]
-# PacketTransmitter(buffer_count, ss_clock_frequency): 5 ms credit timeout = 625 001 cycles at the default 125 MHz;
-# 1 MHz (5 001 cycles, never reached in a run) and 20 kHz (101 cycles, reached by the directed timeout scenarios)
-TX_ALT_CONFIGS = [(2, 1e6), (1, 60e6), (8, 1e6), (3, 1e6), (4, 1e6)]    # quick: one of the first three + (3, 1e6)
+# USB3 fixes the number of header buffers / credits at four (LCRD A..D), so the properties define no behaviour for
+# buffer_count != 4: only buffer_count = 4 is elaborated.  HeaderPacketReceiver(downstream_facing): keep-alive LUP
+# (default) / LDN.  PacketTransmitter(ss_clock_frequency): 5 ms credit timeout = 625 001 cycles at the default
+# 125 MHz; 1 MHz / 60 MHz (never reached in a run) and 20 kHz (101 cycles, reached by the directed scenarios).
+RX_ALT_CONFIGS = [(4, True)]
+TX_ALT_CONFIGS = [(4, 1e6), (4, 60e6)]
 TX_TIMEOUT_FREQ = 20e3
 
 
@@ -825,8 +816,6 @@ def check_C37(rep):
     # other constructor configurations (one per quick run, rotated by seed; all in the thorough tier)
     alt_groups = []
     cfgs = _rotate(RX_ALT_CONFIGS[:3], rep.seed, 1) if quick else list(RX_ALT_CONFIGS)
-    if (3, False) not in cfgs:
-        cfgs.append((3, False))
     for nb, df in cfgs:
         b2 = RxBench(buffer_count=nb, downstream_facing=df)
         g = []
@@ -1489,9 +1478,6 @@ def tx_classify(trace, matched, status, meta):
     k = matched if status != "ok" else matched + 1
     pre = trace[:k]
     pattern = "other"
-    _nb = (meta or {}).get("buffer_count")
-    if _nb and _nb & (_nb - 1):
-        return {"clause": status, "pattern": "buffer_count_not_power_of_two", "group": "config"}
     if status.startswith("env_"):
         raise tlc.TLCError("stimulus left the Env assumptions (%s) at step %d: %s" % (status, k, pre[-3:]))
     acc_t = [r["t"] for r in pre if r["e"] == "acc"]
@@ -1515,9 +1501,6 @@ def tx_classify(trace, matched, status, meta):
                 last_rr = r["t"]
             if r["e"] == "hps" and retries > 1 and r["t"] == last_rr + 1:
                 pattern = "lbad_during_retransmission"     # latched in the cycle the strobe arrived
-    nb = (meta or {}).get("buffer_count")
-    if nb and nb & (nb - 1):
-        pattern = "buffer_count_not_power_of_two"
     return {"clause": status, "pattern": pattern}
 
 
@@ -1604,8 +1587,6 @@ def check_C39(rep):
     # other constructor configurations: buffer_count and ss_clock_frequency (credit timeout in cycles)
     alt_groups = []
     cfgs = _rotate(TX_ALT_CONFIGS[:3], rep.seed, 1) if quick else list(TX_ALT_CONFIGS)
-    if (3, 1e6) not in cfgs:
-        cfgs.append((3, 1e6))
     for nb, freq in cfgs:
         b2 = TxBench(buffer_count=nb, ss_clock_frequency=freq)
         g = []
